@@ -16,18 +16,22 @@ class C06(Prop):
     technique = ('Coq proof about a hand-written model of src/util/dataAccess.cpp (multi-tag part) that calls the translator-generated '
                  'index conversions + correspondence through the public API on arrays filled with their own flat index, judged by an '
                  'extracted brute-force specification (linear scan over the axis coordinates, row i of positions / extents)')
-    level_text = ('Machine-checked Coq theorems, unbounded in rank, shape, number of positions and length of the index list: for the '
-                  'repaired behaviour retrieval for position index i returns exactly the region whose start is row i of the positions '
-                  'array and whose size is row i of the extents array (single element at or after the position without extents or with a '
-                  'zero extent), under the same inclusive / exclusive and unspecified-dimension rules as for a Tag (mtag_exact); retrieval '
-                  'for an index list is the list of the single retrievals (mtag_list_is_map); an index beyond the number of positions '
-                  'raises nix::OutOfBounds (mtag_index_oob); indexed features return slice i along the first dimension, tagged features '
-                  'are cut like references, untagged ones are returned whole (mtag_feature_indexed, feature_dispatch). The Exclusive / '
-                  'unspecified-dimension case is refuted by a witness (open finding pinned by testFlexibleTagging).')
+    level_text = ('Machine-checked Coq theorems (coq/Properties/Properties_C06.v), unbounded in rank, shape, number of positions and '
+                  'length of the index list, no hypothesis left about the index conversions: for the repaired behaviour retrieval for '
+                  'position index i returns exactly the region whose start is row i of the positions array and whose size is row i of the '
+                  'extents array (single element at or after the position without extents or with a zero extent), under the same '
+                  'inclusive / exclusive and unspecified-dimension rules as for a Tag (mtag_exact); retrieval for an index list is the list '
+                  'of the single retrievals, the empty list standing for all positions (mtag_list_is_map, mtag_all_positions); an index '
+                  'beyond the number of positions raises nix::OutOfBounds (mtag_index_oob); an empty index list is defined behaviour '
+                  '(mtag_empty_list_defined; undefined in the pinned code: mtag_empty_list_today); indexed features return slice i along '
+                  'the first dimension, tagged features are cut like references, untagged ones are returned whole (mtag_feature_indexed, '
+                  'mtag_feature_dispatch); the repaired model answers what the extracted oracle answers (mtag_meets_oracle). The '
+                  'Exclusive / unspecified-dimension case is refuted by a witness (open finding pinned by testFlexibleTagging). The last '
+                  'obligation current_is_repaired stays open until the fix: commits land.')
     level_note = ('Trusted: Coq kernel, Flocq, stdlib real-number axioms, translator, extraction and driver glue; the model of '
                   'dataAccess.cpp is hand-written and tied by the correspondence run (offset / count vectors, shapes and element ids of '
-                  'every view returned, for single indices and index lists). HDF5 reads of the positions / extents rows are modelled as '
-                  'row-major array reads.')
+                  'every view returned, for single indices and index lists, exception classes, sanitizer aborts). HDF5 reads of the '
+                  'positions / extents rows are modelled as row-major array reads.')
     nontrivial_rule = ('a case is one array set-up (rank 1..3, every combination of descriptor kinds) with a multi-tag whose positions '
                        '(1-D on 1-D data, N x D with D fewer / equal / more than the rank, N = 0..8) and extents (absent / present, with '
                        'zero, negative, sub-ulp, exact, beyond-the-data rows) are aimed at the coordinates, followed by single-index and '
@@ -42,6 +46,8 @@ class C06(Prop):
     trusted_base = ['hand model coq/Access/Retrieval.v of src/util/dataAccess.cpp, src/MultiTag.cpp, src/DataView.cpp (constructor), tied by correspondence',
                     'translator for getSampledIndex / getSetIndex / getDataFrameIndex; hand model of getIndex (C07)',
                     'HDF5 hyperslab reads (positions / extents rows, DataView contents) deliver the elements of the box offset/count']
+
+    _ub_share = 1.0
 
     def canon(self, line):
         return line.replace('ERR std::out_of_range', 'ERR nix::OutOfBounds')
@@ -165,7 +171,9 @@ class C06(Prop):
                 lines.append('mfeature1 %d %s %d' % (j, m, one_idx()))
         if rnd.random() < 0.15:
             lines.append('mfeature1 %d %s %d' % (len(feats) + rnd.choice([0, 2]), rnd.choice(G.MODES), one_idx()))
-        if flavour == 'empty' or rnd.random() < 0.04:
+        # every such query aborts the pinned library (sanitizer) and costs a driver restart; the engine gives up after 400
+        # restarts per shard, so their number per run is capped
+        if (flavour == 'empty' or rnd.random() < 0.04) and rnd.random() < self._ub_share:
             j = rnd.randrange(0, len(feats)) if feats else 0
             lines.append(rnd.choice(['moffcnt 0 %s 0' % rnd.choice(G.MODES), 'mtagged 0 %s 0' % rnd.choice(G.MODES),
                                      'mfeature %d %s 0' % (j, rnd.choice(G.MODES))]))
@@ -176,7 +184,8 @@ class C06(Prop):
         rnd = random.Random(seed)
         combos = G.all_kind_combos()
         quick = tier == 'quick'
-        per = (16 if quick else 900) * scale
+        per = (16 if quick else 750) * scale
+        self._ub_share = 1.0 if quick else 0.3
         flavours = ['std', 'std', 'posonly', 'posonly', 'ext', 'ext', 'pad', 'pad', 'units', 'plain', 'empty', 'inconsistent', 'malformed', 'std', 'ext', 'posonly', 'pad']
         cases = []
         for kinds in combos:
@@ -184,6 +193,10 @@ class C06(Prop):
             for r in range(reps):
                 cases.append(self.one_case(rnd, list(kinds), flavours[r % len(flavours)] if r < len(flavours) else rnd.choice(flavours)))
         return cases
+
+    def nontrivial(self, case, model_lines):
+        """the model returned data (not an error) for at least one QUERY line; set-up lines do not count"""
+        return any(m.startswith('OK') and l.split(' ')[0] not in G.SETUP for l, m in zip(case.lines, model_lines))
 
     def signature(self, case, impl, spec):
         return G.signature('mtag', case, impl, spec, self.compare)
